@@ -548,7 +548,7 @@ def register(PROPS):
         prepare=c14_prepare, post=c14_post, replay_env=c14_replay_env,
         stages=[dict(test="TestC14", kind="enum", quick=1, thorough=1, timeout_thorough=5400)],
         replay="TestReplayC14",
-        rule="program pairs (56 quick / 2012 thorough; every other embedded field, by position, carries a tag of another package - `json:",inline"` - and is still an embedded field): the first 22 pairs insert one excluded field of each Go type class (incl. an embedded struct of unexported type); the last 4/12 pairs reuse one struct type both embedded in the root and as the type of two group fields; (8 primitives, other basic types, pointer, slice, array, map, chan, func with "
+        rule="program pairs (56 quick / 2012 thorough; every other embedded field, by position, carries a tag of another package (json inline) and is still an embedded field): the first 22 pairs insert one excluded field of each Go type class (incl. an embedded struct of unexported type); the last 4/12 pairs reuse one struct type both embedded in the root and as the type of two group fields; (8 primitives, other basic types, pointer, slice, array, map, chan, func with "
              "unnamed/named parameters and results, anonymous structs with exported fields, interfaces, named struct / pointer / slice of it, qualified types) into a healthy base; the rest draw 1..4 excluded "
              "fields (how in {unexported, dash-tagged} quick; + {_x, non-ASCII lower-case} thorough) at random structs/positions and/or replace a random contiguous run of fields of a random struct by an "
              "embedded struct. Oracle: decorated program generates deterministically and compiles; for up to 60 structurally distinct records x 3 workloads the bytes written are identical to the base's; "
